@@ -190,3 +190,16 @@ class ScenarioLog:
 
     def ensures(old, s, result):
         return {"completed": result == True}  # noqa: E712
+
+
+from pyvc.native import native_monitor  # noqa: E402
+
+EXTRA_CHECKS = [
+    native_monitor(
+        "C17",
+        "contracts.c17_native",
+        "monitor_results",
+        "results",
+        "582 (thorough 2679) scenarios: real Tuner runs on an in-memory back end (17 structural shapes x metric/mode declarations x workers x burst x update interval, random scripts, shipped schedulers) and StoreResultsCallback / TuningStatus / load_experiment on every small table over {low, high, NaN, missing}; reference computed only from what was handed to the loop",
+    )
+]
